@@ -132,7 +132,7 @@ def run(tier, seed):
     judged = [r for r in recs if r["case"]["form"] != "four_neighbors"]
     path = chk.dir / "arrays.ndjson"
     write_ndjson(path, judged)
-    res2 = run_tlc("Trace_Array", "Trace_Array", workdir=chk.dir, env={"TRACE_FILE": str(path)}, timeout=3000)
+    res2 = run_tlc("Trace_Array", "Trace_Array", workdir=chk.dir, env={"TRACE_FILE": str(path)}, timeout=3000, workers=1)
     chk.add_tlc(res2)
     if len(res2.records) != len(judged):
         raise MachineryError(f"{len(judged)} array records but {len(res2.records)} verdicts")
